@@ -153,11 +153,12 @@ func (n *c11Node) Name() string    { return n.name }
 func (n *c11Node) Address() string { return n.name }
 func (n *c11Node) IsActive() bool  { return true }
 func (n *c11Node) IsSynced() bool  { return true }
-func (n *c11Node) SubmitValidatorRegistrations(_ context.Context, regs []*consensusapi.VersionedSignedValidatorRegistration) error {
+func (n *c11Node) SubmitValidatorRegistrations(ctx context.Context, regs []*consensusapi.VersionedSignedValidatorRegistration) error {
 	mc.Yield()
 	if n.env.failing == "node1" && n.name == "node1" {
 		return errors.New("scripted node failure")
 	}
+	var back []*relaytypes.SignedValidatorRegistration
 	for _, x := range regs {
 		if x == nil || x.V1 == nil || x.V1.Message == nil {
 			n.env.malformed = true
@@ -165,6 +166,12 @@ func (n *c11Node) SubmitValidatorRegistrations(_ context.Context, regs []*consen
 		}
 		m := x.V1.Message
 		n.regs = append(n.regs, c11Reg{round: n.env.round, pubkey: m.Pubkey, fee: strings.ToLower(m.FeeRecipient.String()), gas: m.GasLimit, timestamp: m.Timestamp, sig: x.V1.Signature})
+		back = append(back, &relaytypes.SignedValidatorRegistration{Message: &relaytypes.ValidatorRegistration{FeeRecipient: m.FeeRecipient, GasLimit: m.GasLimit, Timestamp: m.Timestamp, Pubkey: m.Pubkey}, Signature: x.V1.Signature})
+	}
+	if n.env.loopback && n.name == "node2" && n.env.svc != nil && len(back) > 0 {
+		// this beacon node has vouch configured as its builder: it passes the registrations it is given on to
+		// its builder endpoint, i.e. back to vouch, at once
+		_, _ = n.env.svc.ValidatorRegistrations(ctx, back)
 	}
 	return nil
 }
@@ -195,6 +202,8 @@ type c11Env struct {
 	doc       string
 	fwd       bool
 	done      bool
+	loopback  bool // beacon node 2 passes the registrations it receives back to vouch (its builder endpoint)
+	svc       *standardblockrelay.Service
 }
 
 // c11Sig is the signature the signer stand-in produces: it encodes exactly what was signed.
@@ -254,7 +263,7 @@ func c11Units(tier string) []hx.Unit {
 				u.Bound = 1
 			}
 			u.Body = func() {
-				*e = c11Env{relays: map[string]*c11Relay{}}
+				*e = c11Env{relays: map[string]*c11Relay{}, loopback: mc.Choose(2) == 1}
 				util.VerifResetBuilderClients()
 				for _, a := range []string{c11R1, c11R2} {
 					r := &c11Relay{addr: a, env: e}
@@ -287,11 +296,14 @@ func c11Units(tier string) []hx.Unit {
 					standardblockrelay.WithBuilderConfigs(map[phase0.BLSPubKey]*blockrelay.BuilderConfig{}),
 					standardblockrelay.WithSecondaryValidatorRegistrationsSubmitters([]eth2client.ValidatorRegistrationsSubmitter{e.nodes[0], e.nodes[1]}))
 				must(err)
+				e.svc = svc
 				prep, err := standardpreparer.New(ctx, standardpreparer.WithLogLevel(zerolog.Disabled), standardpreparer.WithMonitor(&nullmetrics.Service{}), standardpreparer.WithChainTimeService(ct),
 					standardpreparer.WithValidatingAccountsProvider(accts), standardpreparer.WithExecutionConfigProvider(svc),
 					standardpreparer.WithProposalPreparationsSubmitters([]eth2client.ProposalPreparationsSubmitter{e.nodes[0], e.nodes[1]}))
 				must(err)
 				// the round New itself started (round 0) uses the first document without failures
+				e.docs = append(e.docs, e.doc)
+				e.fails = append(e.fails, "")
 				mc.Sleep(int64(time.Minute))
 				for rd := 1; rd <= rounds; rd++ {
 					di, fi := d0, f0
@@ -337,9 +349,12 @@ func c11Check(e *c11Env, r *mc.Result) mc.Verdict {
 	for i := range e.docs {
 		hist = append(hist, e.docs[i]+"/"+e.fails[i])
 	}
-	v.Outcome = fmt.Sprintf("rounds=%d signed=%d", len(e.docs), e.signed)
+	v.Outcome = fmt.Sprintf("rounds=%d signed=%d", len(e.docs)-1, e.signed)
 	v.Sample = "rounds [" + strings.Join(hist, " ") + "] -> " + v.Outcome
-	v.Nontrivial = len(e.docs) > 1 || e.fails[0] != "" || e.docs[0] == "DU" || e.docs[0] == "D3"
+	if e.loopback {
+		v.Sample = "(beacon node 2 passes registrations back to vouch) " + v.Sample
+	}
+	v.Nontrivial = len(e.docs) > 2 || (len(e.fails) > 1 && e.fails[1] != "") || e.docs[0] == "DU" || e.docs[0] == "D3"
 	fail := func(key, msg string) mc.Verdict {
 		v.Violation = "rounds [" + strings.Join(hist, " ") + "]: " + msg
 		v.Key = "C11/" + key
@@ -359,7 +374,7 @@ func c11Check(e *c11Env, r *mc.Result) mc.Verdict {
 		docs[d.name] = d
 	}
 	for i, dn := range e.docs {
-		rd := i + 1
+		rd := i // round 0 is the one the constructor started
 		failing := e.fails[i]
 		for vi := 1; vi <= 3; vi++ {
 			exp := docs[dn].exp(vi)
@@ -415,8 +430,11 @@ func c11Check(e *c11Env, r *mc.Result) mc.Verdict {
 					}
 				}
 			}
-			// proposal preparations to every beacon node
+			// proposal preparations to every beacon node (the rounds driven by the harness)
 			for _, n := range e.nodes {
+				if rd == 0 {
+					break
+				}
 				if (failing == "node1" || failing == "node1-inactive") && n.name == "node1" {
 					continue
 				}
@@ -487,7 +505,7 @@ func init() {
 	hx.Register(&hx.Prop{
 		ID:    "C11",
 		Title: "Relays and beacon nodes are told exactly what the configuration says",
-		Rule: "histories of 1..3 registration rounds on the real block relay + proposal preparer with 3 validators (one of them pending, active from the next epoch), 2 relays (the second answering after 1 s and giving up on a cancelled request), 2 beacon nodes: per round the configuration in force (5 documents: plain, relay gas-limit override, proposer entry with own fee recipient and a disabled relay, single relay, one validator unresolvable) x failing party (none, relay 1, node 1, signer for validator 2, signer for the registrations that carry the raised gas limit of one relay, node 1 reporting not-active), a refresh preceding each round; then REST registrations for a controlled and an uncontrolled validator; fan-out goroutines under deviation-bounded schedules (quick 0, thorough 1); " +
+		Rule: "histories of 1..3 registration rounds on the real block relay + proposal preparer with 3 validators (one of them pending, active from the next epoch), 2 relays (the second answering after 1 s and giving up on a cancelled request), 2 beacon nodes (the second optionally passing the registrations it receives back to vouch, its builder endpoint): per round the configuration in force (5 documents: plain, relay gas-limit override, proposer entry with own fee recipient and a disabled relay, single relay, one validator unresolvable) x failing party (none, relay 1, node 1, signer for validator 2, signer for the registrations that carry the raised gas limit of one relay, node 1 reporting not-active), a refresh preceding each round; then REST registrations for a controlled and an uncontrolled validator; fan-out goroutines under deviation-bounded schedules (quick 0, thorough 1); " +
 			"oracle: per round and relay exactly one registration per resolved validator with the resolved fee recipient / gas limit and a signature produced for exactly that content, a preparation per validator and node with the resolved fee recipient, other parties unaffected by a failing one; non-trivial = more than one round, a failing party or a proposer-specific document",
 		Assumptions: []string{
 			"expected settings per document are written out by hand from the documented precedence (C10 checks the resolver itself)",
